@@ -2,6 +2,8 @@
 # usage: tools/try_mutant.sh <patch.diff> <property-id> [tier]
 # Applies a seeded change to /repo, runs the check, and always reverts /repo afterwards.
 P=$1; ID=$2; TIER=${3:-quick}
+# prefer a rebased patch (for the current /repo HEAD) when one exists next to the original
+if [ -f "$(dirname $P)/patch_rebased.diff" ]; then P="$(dirname $P)/patch_rebased.diff"; fi
 cd /repo || exit 2
 if ! git diff --quiet; then echo "/repo has uncommitted changes"; exit 2; fi
 if ! git apply --3way "$P" 2>/tmp/apply.err; then
